@@ -95,4 +95,9 @@ CONFIG = {
         "thorough": {'checks': 500000, 'shards': 14, 'timeout': 3600, 'shrinktime': '60s'},
         "assumptions": ['errors raised inside built-in or user functions only need to be errors (no position check)', "for 'SafeWriter not last' the failing action itself may already have emitted the writer's bytes", 'message text is never compared, only the ("file":line) position'],
     },
+    'C10': {
+        "quick": {'checks': 1200, 'shards': 4, 'timeout': 900},
+        "thorough": {'checks': 150000, 'shards': 14, 'timeout': 7200, 'shrinktime': '60s'},
+        "assumptions": ['two runtime.GC() calls empty every sync.Pool (victim cache semantics)', 'with GOMAXPROCS(1) and GC off, Put followed by Get returns the same pooled object; histories where reuse was not observed still count but are not non-trivial'],
+    },
 }
